@@ -216,8 +216,12 @@ func (env *SpecEnv) eval(e Expr) *Val {
 				} else {
 					fx.sol.AssertOnce("(forall (" + strings.Join(decls, " ") + ") " + tAnd(facts...) + ")")
 				}
+				body = tImp(tAnd(facts...), body)
+			} else {
+				// nested quantifier: hand the cell invariants to the enclosing quantifier (universally closed over the
+				// inner variables) instead of making them premises nobody could discharge
+				*saved = append(*saved, "(forall ("+strings.Join(decls, " ")+") "+tAnd(facts...)+")")
 			}
-			body = tImp(tAnd(facts...), body)
 		}
 		if x.Forall {
 			nb, pat := normaliseForall(body, qnames)
@@ -1072,6 +1076,11 @@ func (env *SpecEnv) targets(e Expr, src string) []*assignTarget {
 				if l := env.selLoc(sel.X, sel.Name); l != nil {
 					return []*assignTarget{{kind: "ghost", key: "A|" + l.className(), src: src}}
 				}
+			}
+		case "atomics":
+			// atomics("pkg.Type.field"): the atomic state of that field in every object
+			if sl, ok := x.Args[0].(*EStr); ok {
+				return []*assignTarget{{kind: "ghost", key: "A|" + sl.S, src: src}}
 			}
 		}
 	}
